@@ -47,14 +47,18 @@ Scn == [vuDoc : Validity, vuE1 : Validity, sig : {"none", "valid", "invalid", "w
         dupe : BOOLEAN, order : {"AB", "BA"},
         \* bLoose: source B is a remote source configured with its own option check_validity = false (source A then comes
         \* from a file or another URL).  A per-source option binds that source only.
-        bLoose : BOOLEAN]
+        bLoose : BOOLEAN,
+        \* how the signed remote source A gets into the store: MetadataStore.load("remote", ...) or the new-style
+        \* configuration list handed to MetadataStore.imp (class saml2_tophat.mdstore.MetaDataExtern)
+        via : {"load", "imp"}]
 
 VARIABLES scn, pc, loaded     \* loaded: sequence of sources registered, in load order
 vars == <<scn, pc, loaded>>
 \* a tampered or wrapped aggregate is only meaningful where a verification certificate is configured
 \* (without one it is simply another document)
 WellFormed(s) == /\ s.sig \in {"invalid", "wrapped"} => s.cert
-                 /\ s.bLoose => s.order = "BA" /\ s.sig \in {"none", "valid"}
+                 /\ (s.bLoose => s.order = "BA" /\ s.sig \in {"none", "valid"})
+                 /\ (s.via = "imp" => s.cert /\ ~s.bLoose)
                  /\ (s.vuDoc = "pastOffset" \/ s.vuE1 = "pastOffset") => s.sig \in {"none", "valid"}
 Init == scn \in {s \in Scn : WellFormed(s)} /\ pc = "load1" /\ loaded = <<>>
 
